@@ -169,16 +169,32 @@ func c16Gen(r *rand.Rand, id int) c16Case {
 	c := c16Case{ID: id, Max: []int{-1, 0, 1, 2, 3, 5, 100}[r.Intn(7)]}
 	n := 3 + r.Intn(30)
 	fileHeavy := r.Intn(3) == 0
+	var lastQ []int
 	for i := 0; i < n; i++ {
 		var o c16Op
 		x := r.Intn(100)
+		if r.Intn(12) == 0 {
+			// the same query searched twice in a row by two runs of the tool: add, save, (load,) add again with other
+			// fields, save, load
+			e1 := c16GenEntry(r, 0)
+			e2 := c16GenEntry(r, 0)
+			e2.Q = e1.Q
+			c.Ops = append(c.Ops, c16Op{Op: "add", Entry: &e1}, c16Op{Op: "save"})
+			if r.Intn(2) == 0 {
+				c.Ops = append(c.Ops, c16Op{Op: "load"})
+			}
+			c.Ops = append(c.Ops, c16Op{Op: "add", Entry: &e2}, c16Op{Op: "save"}, c16Op{Op: "load"})
+			lastQ = e2.Q
+			continue
+		}
 		switch {
 		case x < 45:
 			o.Op = "add"
 			e := c16GenEntry(r, 0)
-			if r.Intn(4) == 0 && len(c.Ops) > 0 && c.Ops[len(c.Ops)-1].Entry != nil {
-				e.Q = c.Ops[len(c.Ops)-1].Entry.Q // immediate repeat
+			if r.Intn(4) == 0 && lastQ != nil {
+				e.Q = lastQ // repeat of the newest query (whatever was saved or loaded in between)
 			}
+			lastQ = e.Q
 			o.Entry = &e
 		case x < 55:
 			o.Op = "save"
